@@ -223,7 +223,8 @@ package store
 
 //@ interface store.Store.Stats() (result, err)
 //@ ensures [ledger-total] err == nil ==> result != nil && bigval(result.TotalCredit) == this.total
-//@ modifies clock
+//@ ensures [a-record-of-its-own] {C10} err == nil ==> !old(allocated(ref(result)))
+//@ modifies clock, alloc
 
 // ---- statistics helpers: what counting one record does to the credit total -----------------------
 //@ func (*Stats).CountBalance
